@@ -85,6 +85,10 @@ def expected(ctx, L):
 
 def run(ctx):
     proof = common.proof_status(ctx)
+    # call-level correspondence of the handle model the C19_read_returns_only_true_bytes theorem is about, with unreadable blocks in every
+    # second history (the device refuses to read one to six blocks of the file during a read call)
+    from . import fileiocorr
+    fileiocorr.run(ctx, 24 if ctx.tier == "quick" else 800, fault_every=2)
     rng = ctx.rng
     flavs = gen.FLAVOURS
     A, B, D = hexs(b"fileA"), hexs(b"fileB"), hexs(b"dirD")
